@@ -29,6 +29,8 @@ FIXED = [
  ("C06", "fix: an unclosed comment or raw block is a parse error", "{% comment %}... / {% raw %}... never closed were accepted"),
  ("C07", "fix: an error that already carries a line number keeps it", "without a parse path, a render error nested in blocks was reported at the line of the outermost enclosing block"),
  ("C07", "fix: errors in elsif and when clauses are located at the clause", "syntax/evaluation errors in {% elsif %} / {% when %} were reported at the line of the {% if %} / {% case %} tag"),
+ ("C18", "fix: Drops nested in an array are resolved before the array reaches a filter", "{{ drops | join }} printed Go structs ({x} {y}); sort_natural/uniq/sort: key saw wrapper structs instead of the ToLiquid values"),
+ ("C18", "fix: uniq compares elements by Liquid equality", "{{ a | uniq }} kept uint8(1) and uint(1) (or 1 and 1.0) as distinct elements; panicked on a struct wrapping an uncomparable value"),
  ("C01", "fix: property access on a map whose keys are not strings", "{{ m.foo }} / {{ m.size }} on a map[int]string panicked in reflect.Value.MapIndex"),
 ]
 KNOWN = [
